@@ -5,10 +5,13 @@
 (* The environment is (a) a reference PCI function (config-space register file) against  *)
 (* which the BAR-sizing program is run, and (b) a config-read oracle for the iterators.  *)
 (*                                                                                        *)
-(* `bar_info` / `bars` follow the code AFTER the two repairs of F5a/F5b                   *)
-(* (slot check before the first write; raw 16-bit command kept for disable/restore).      *)
-(* `bar_info_prefix` / `bars_prefix` are the code as it was before them; they are kept    *)
-(* for the `_refuted` lemmas and for replaying the findings.                              *)
+(* `bar_info` / `bars` follow the code AFTER the repairs of F5a/F5b (slot check before    *)
+(* the first write; raw 16-bit command kept for disable/restore) and of F11 (size = the   *)
+(* lowest writable address bit, `bar_size`).                                              *)
+(* Kept for the `_refuted` lemmas and for replaying the findings:                         *)
+(*   `bar_size_prefix`                       the size computation before F11              *)
+(*   `bar_info_f11_prefix` / `bars_f11_prefix`  the code after F5a/F5b, before F11         *)
+(*   `bar_info_prefix` / `bars_prefix`       the code before all three                    *)
 From VD Require Import Base.Words.
 
 Definition ones16 : N := 65535.
@@ -84,14 +87,20 @@ Inductive barinfo :=
 | BarIO (addr size : N).
 Definition mem_bar_type (v : N) : option N := if v <=? 2 then Some v else None.
 
-(* (!(size_mask & !flag_bits)).wrapping_add(1) on u64 *)
+(* x.wrapping_neg() on u64 *)
+Definition neg64 (x : N) : N := w64 (two64 - w64 x).
+(* let address_mask = size_mask & !flag_bits; address_mask & address_mask.wrapping_neg() *)
 Definition bar_size (io_space : bool) (size_mask : N) : N :=
+  N.land (N.land size_mask (lnot64 (if io_space then 3 else 15)))
+         (neg64 (N.land size_mask (lnot64 (if io_space then 3 else 15)))).
+(* before F11: (!(size_mask & !flag_bits)).wrapping_add(1) on u64 *)
+Definition bar_size_prefix (io_space : bool) (size_mask : N) : N :=
   w64 (lnot64 (N.land size_mask (lnot64 (if io_space then 3 else 15))) + 1).
 
 (* the tail of bar_info: what is returned, from the values read *)
-Definition bar_decode (bar_orig address_top size_mask : N) : outcome (option barinfo) :=
+Definition bar_decode (szf : bool -> N -> N) (bar_orig address_top size_mask : N) : outcome (option barinfo) :=
   let io_space := N.land bar_orig 1 =? 1 in
-  let size := bar_size io_space size_mask in
+  let size := szf io_space size_mask in
   if size_mask =? 0 then Ok None
   else if io_space then Ok (Some (BarIO (N.land bar_orig 4294967292) (w32 size)))
   else
@@ -111,13 +120,13 @@ Definition result : Type := outcome (option barinfo) * pcifn * list acc.
 Definition fin {A} (o : A) (s : st) : A * pcifn * list acc := (o, fst s, snd s).
 
 (* restore the BAR, then the command register if it had been changed *)
-Definition bar_finish (restore : option N) (off bar_orig address_top size_mask : N) (s : st) : result :=
+Definition bar_finish (szf : bool -> N -> N) (restore : option N) (off bar_orig address_top size_mask : N) (s : st) : result :=
   let s1 := wr s off bar_orig in
   let s2 := match restore with Some c => set_command s1 c | None => s1 end in
-  fin (bar_decode bar_orig address_top size_mask) s2.
+  fin (bar_decode szf bar_orig address_top size_mask) s2.
 
 (* sizing proper, shared by both versions: write all ones, read back, second half for 64-bit *)
-Definition bar_probe (check_slot : bool) (restore : option N) (off i bar_orig : N) (s : st) : result :=
+Definition bar_probe (szf : bool -> N -> N) (check_slot : bool) (restore : option N) (off i bar_orig : N) (s : st) : result :=
   let s4 := wr s off ones32 in
   let size_lo := fst (rd s4 off) in
   let s5 := snd (rd s4 off) in
@@ -129,12 +138,12 @@ Definition bar_probe (check_slot : bool) (restore : option N) (off i bar_orig : 
       let s7 := wr (snd (rd s5 off1)) off1 ones32 in
       let size_top := fst (rd s7 off1) in
       let s9 := wr (snd (rd s7 off1)) off1 bar_top_orig in
-      bar_finish restore off bar_orig bar_top_orig (N.lor size_lo (N.shiftl size_top 32)) s9
+      bar_finish szf restore off bar_orig bar_top_orig (N.lor size_lo (N.shiftl size_top 32)) s9
   else
     let size_top := if size_lo =? 0 then 0 else ones32 in
-    bar_finish restore off bar_orig 0 (N.lor size_lo (N.shiftl size_top 32)) s5.
+    bar_finish szf restore off bar_orig 0 (N.lor size_lo (N.shiftl size_top 32)) s5.
 
-(* ---- bar_info as it was before the repairs ---- *)
+(* ---- bar_info as it was before all repairs ---- *)
 Definition bar_info_prefix (m : mode) (d : pcifn) (i : N) : result :=
   let s0 : st := (d, []) in
   let command_orig := snd (fst (get_status_command s0)) in
@@ -147,11 +156,11 @@ Definition bar_info_prefix (m : mode) (d : pcifn) (i : N) : result :=
   | None => fin Panic s2
   | Some off =>
       let bar_orig := fst (rd s2 off) in
-      bar_probe true (if changed then Some command_orig else None) off i bar_orig (snd (rd s2 off))
+      bar_probe bar_size_prefix true (if changed then Some command_orig else None) off i bar_orig (snd (rd s2 off))
   end.
 
-(* ---- bar_info after the repairs ---- *)
-Definition bar_info (m : mode) (d : pcifn) (i : N) : result :=
+(* ---- bar_info after the repairs of F5a/F5b, for a given size computation ---- *)
+Definition bar_info_gen (szf : bool -> N -> N) (m : mode) (d : pcifn) (i : N) : result :=
   let s0 : st := (d, []) in
   match bar_off m i with
   | None => fin Panic s0
@@ -167,8 +176,12 @@ Definition bar_info (m : mode) (d : pcifn) (i : N) : result :=
         let command_disable_decode := N.land command_orig (N.ldiff ones16 CMD_DECODE) in
         let changed := negb (command_disable_decode =? command_orig) in
         let s3 := if changed then set_command s2 command_disable_decode else s2 in
-        bar_probe false (if changed then Some command_orig else None) off i bar_orig s3
+        bar_probe szf false (if changed then Some command_orig else None) off i bar_orig s3
   end.
+(* the code as it is now *)
+Definition bar_info := bar_info_gen bar_size.
+(* ... and before the repair of F11 *)
+Definition bar_info_f11_prefix := bar_info_gen bar_size_prefix.
 
 (* bars(): while bar_index < 6 { info = bar_info(..)?; bars[i] = info; i += 1 or 2 } *)
 Definition takes_two (o : option barinfo) : bool :=
@@ -191,6 +204,7 @@ Definition bars_with bi (m : mode) (d : pcifn) :=
   bars_loop bi 6 m (d, []) 0 [None; None; None; None; None; None].
 Definition bars := bars_with bar_info.
 Definition bars_prefix := bars_with bar_info_prefix.
+Definition bars_f11_prefix := bars_with bar_info_f11_prefix.
 
 (* ---- the specification side: what a slot IS, independently of how the code sizes it ---- *)
 (* index of the lowest clear bit of `m` at or above `from` (fuel positions examined) *)
